@@ -671,7 +671,7 @@ def l1_pair_probe(pair, variant, shape, pool):
             return ([('replacement-named-in-warning-does-not-exist',
                       f'neither {cqual} nor module {dmod} has a callable {newname}', newname, None)], ('no-replacement',), True)
         if variant == 'own':
-            return None
+            return 'n/a'
         nkind = 'modfun'
     else:
         _, nkind = _unwrap_raw(raw_new)
@@ -1085,8 +1085,20 @@ def canon(x, depth=0, exclude=()):
 
 
 # ---- fixtures (VERIF_SEED selects the numeric constants; each run is exhaustive over its own recipe space)
-_K = [1.0, 1.5, 0.75, 2.0][_SEED % 4]
-_B = [(0.5, -0.25), (0.3, 0.6), (-0.4, 0.2), (1.25, -1.0)][_SEED % 4]
+_KS = [1.0, 1.5, 0.75, 2.0]
+_BS = [(0.5, -0.25), (0.3, 0.6), (-0.4, 0.2), (1.25, -1.0)]
+_K = _KS[_SEED % 4]
+_B = _BS[_SEED % 4]
+
+
+def set_alphabet(i):
+    """Selects the numeric constants of the fixtures (quick: the one of VERIF_SEED; thorough: each of the four in turn)."""
+    global _K, _B, _ALPH
+    _ALPH = i % 4
+    _K, _B = _KS[_ALPH], _BS[_ALPH]
+
+
+_ALPH = _SEED % 4
 NOISY_STATE = ('drawsProcessingTime', 'optimizationMessages', 'htmlFileName', 'F12FileName', 'latexFileName',
                'pickleFileName', 'bootstrap_time', 'bootstrapTime', '_time', 'lastSample')
 
@@ -1131,20 +1143,19 @@ def fx_biogeme(formulas=None, **kw):
     return b
 
 
-_RES_PICKLE = None
+_RES_PICKLE = {}
 
 
 def fx_results():
-    """A results object of a tiny estimation; built once per worker, handed out as independent copies."""
-    global _RES_PICKLE
+    """A results object of a tiny estimation; built once per worker and alphabet, handed out as independent copies."""
     import pickle
-    if _RES_PICKLE is None:
+    if _ALPH not in _RES_PICKLE:
         import numpy as np
         np.random.seed(20)
         b = fx_biogeme(bootstrap_samples=5)
         r = b.estimate(run_bootstrap=True)
-        _RES_PICKLE = pickle.dumps(r)
-    return pickle.loads(_RES_PICKLE)
+        _RES_PICKLE[_ALPH] = pickle.dumps(r)
+    return pickle.loads(_RES_PICKLE[_ALPH])
 
 
 def fx_nests(cross=False):
@@ -1210,7 +1221,6 @@ def fx_expr(name):
         'Elementary': lambda: elementary_expressions.Elementary('e'),
         'bioDraws': lambda: ex.bioDraws('d', 'NORMAL'),
         'RandomVariable': lambda: ex.RandomVariable('omega'),
-        'DefineVariable': lambda: elementary_expressions.DefineVariable('z20', x() * 2, fx_db()),
         'PowerConstant': lambda: unary_expressions.PowerConstant(x(), 2.0),
         'BelongsTo': lambda: unary_expressions.BelongsTo(x(), {2.0, 3.0}),
         'Derive': lambda: unary_expressions.Derive(b() * b() * x(), 'b1'),
@@ -1538,7 +1548,7 @@ def _method_recipes():
     R[('BIOGEME', 'calculateLikelihood')] = dict(receivers=B, argsets=[('unscaled', lambda c: ((x0(), False), {})), ('scaled', lambda c: ((x0(),), dict(scaled=True))),
                                                                       ('wrong-size', lambda c: ((_np([0.1]), False), {}))])
     R[('BIOGEME', 'calculateLikelihoodAndDerivatives')] = dict(receivers=B, argsets=[
-        ('all', lambda c: ((x0(), False), dict(hessian=True, bhhh=True))), ('grad', lambda c: ((x0(), True), {}))])
+        ('all', lambda c: ((x0(), False), dict(hessian=True, bhhh=True))), ('all-scaled', lambda c: ((x0(), True, True, True), {}))])  # (fields not requested are uninitialised memory: never compared)
     R[('BIOGEME', 'likelihoodFiniteDifferenceHessian')] = dict(receivers=B, argsets=[('x0', lambda c: ((x0(),), {}))])
     R[('BIOGEME', 'checkDerivatives')] = dict(receivers=B, argsets=[('x0', lambda c: ((x0(),), {})), ('verbose', lambda c: (([0.1, 0.2],), dict(verbose=True)))])
     R[('BIOGEME', 'setRandomInitValues')] = dict(receivers=B, argsets=[('default', lambda c: ((), {})), ('5', lambda c: ((5.0 * _K,), {}))])
@@ -1576,7 +1586,7 @@ EXPR_ALIAS_ARGSETS = {
     ],
     'getValueAndDerivatives': [
         ('all', 'deriv', lambda c: ((), dict(database=fx_db(), number_of_draws=5, gradient=True, hessian=True, bhhh=True, aggregation=True, prepare_ids=True))),
-        ('rows', 'deriv', lambda c: (({'b1': 0.3 * _K, 'b2': -0.1}, fx_db()), dict(gradient=True, hessian=False, bhhh=False, aggregation=False, prepare_ids=True))),
+        ('rows', 'deriv', lambda c: (({'b1': 0.3 * _K, 'b2': -0.1}, fx_db()), dict(gradient=True, hessian=True, bhhh=True, aggregation=False, prepare_ids=True))),
     ],
     'createFunction': [
         ('fgh', 'deriv', lambda c: ((), dict(database=fx_db(), number_of_draws=5, gradient=True, hessian=True, bhhh=False))),
@@ -1600,11 +1610,12 @@ def _createfunction_post(f, ctx):
 
 
 def l2_tasks(tier):
-    t = [dict(part='L2', group='fun', tier=tier), dict(part='L2', group='Database', tier=tier), dict(part='L2', group='IdManager', tier=tier),
-         dict(part='L2', group='BIOGEME', tier=tier), dict(part='L2', group='bioResults', tier=tier), dict(part='L2', group='KW', tier=tier),
-         dict(part='L2', group='uncovered', tier=tier)]
-    for i in range(8):
-        t.append(dict(part='L2', group='expr', shard=i, of=8, tier=tier))
+    t = [dict(part='L2', group='uncovered', tier=tier)]
+    for alph in ([_SEED % 4] if tier == 'quick' else [(_SEED + j) % 4 for j in range(4)]):
+        for g in ('fun', 'Database', 'IdManager', 'BIOGEME', 'bioResults', 'KW'):
+            t.append(dict(part='L2', group=g, tier=tier, alph=alph))
+        for i in range(8):
+            t.append(dict(part='L2', group='expr', shard=i, of=8, tier=tier, alph=alph))
     return t
 
 
@@ -1637,6 +1648,12 @@ def l2_run(task, rec, only=None):
     D = discover()
     group = task['group']
     tier = task.get('tier', 'quick')
+    set_alphabet(task.get('alph', _SEED % 4))
+    AL = f'@{_ALPH}'
+    if group in ('fun', 'bioResults', 'KW'):
+        _clean_cwd()
+        fx_results()  # warm the per-worker fixture cache outside any observed call
+        _clean_cwd()
     FR = _fun_recipes()
     MR = _method_recipes()
 
@@ -1656,7 +1673,7 @@ def l2_run(task, rec, only=None):
             build = r.get('build') or (lambda: {})
             post = r.get('post') or (_eval_expr_post if r.get('evaluate') else None)
             for al, mk in r['argsets']:
-                label = f'{dmod}.{attr}[{al}]'
+                label = f'{dmod}.{attr}[{al}]{AL}'
                 if not want(label):
                     continue
 
@@ -1668,7 +1685,7 @@ def l2_run(task, rec, only=None):
                     a, k = mk(c)
                     return newf(*a, **k)
 
-                _pair(rec, label, newname, build, co, cn, post, None, dict(part='L2', group='fun', label=label), f'function:{dmod}.{attr}')
+                _pair(rec, label, newname, build, co, cn, post, None, dict(part='L2', group='fun', label=label, alph=_ALPH), f'function:{dmod}.{attr}')
         rec.sample(dict(part='L2', group='fun', recipes=len(FR)))
     elif group in ('Database', 'IdManager', 'BIOGEME', 'bioResults'):
         for (cmod, cqual, alias, newname, dmod, dqual, kind) in D['pairs']:
@@ -1682,7 +1699,7 @@ def l2_run(task, rec, only=None):
                 for al, mk in r['argsets']:
                     forms = ['inst'] + (['class'] if r.get('via_class') else [])
                     for form in forms:
-                        label = f'{cqual}.{alias}[{rl};{al};{form}]'
+                        label = f'{cqual}.{alias}[{rl};{al};{form}]{AL}'
                         if not want(label):
                             continue
 
@@ -1700,7 +1717,7 @@ def l2_run(task, rec, only=None):
                                 return getattr(c['r'], newname)(*a, **k)
 
                         _pair(rec, label, newname, build, co, cn, r.get('post'), state_of,
-                              dict(part='L2', group=group, label=label), f'method:{cqual}.{alias}')
+                              dict(part='L2', group=group, label=label, alph=_ALPH), f'method:{cqual}.{alias}')
         rec.sample(dict(part='L2', group=group))
     elif group == 'expr':
         exprs = sorted({(cm, cq) for (cm, cq, *_rest) in D['pairs']
@@ -1721,7 +1738,7 @@ def l2_run(task, rec, only=None):
                     if (need in ('eval', 'prepared', 'deriv') and cq not in EVALUABLE) or (need == 'deriv' and cq in NO_DERIVATIVES):
                         rec.count('l2_skipped_not_safely_evaluable_in_engine')
                         continue
-                    label = f'{cq}.{alias}[{al}]'
+                    label = f'{cq}.{alias}[{al}]{AL}'
                     if not want(label):
                         continue
 
@@ -1741,7 +1758,7 @@ def l2_run(task, rec, only=None):
 
                     post = _createfunction_post if alias == 'createFunction' else None
                     _pair(rec, label, newname, build, co, cn, post, lambda c: vars(c['r']),
-                          dict(part='L2', group='expr', shard=task.get('shard', 0), of=task.get('of', 1), label=label),
+                          dict(part='L2', group='expr', shard=task.get('shard', 0), of=task.get('of', 1), label=label, alph=_ALPH),
                           f'method:{dqual}.{alias}' + ('' if dqual == cq else ':inherited'))
         if mine:
             rec.sample(dict(part='L2', group='expr', classes=[q for _, q in mine][:6]))
@@ -1867,7 +1884,7 @@ def l2_keywords(rec, tier, want):
                 uncovered.append(f'{entry["label"]}({old}=)')
                 continue
             for vi, v in enumerate(r['values'][old]):
-                label = f'{entry["label"]}({old}=#{vi})'
+                label = f'{entry["label"]}({old}=#{vi})@{_ALPH}'
                 if not want(label):
                     continue
                 build = r.get('build') or (lambda: {})
@@ -1893,13 +1910,13 @@ def l2_keywords(rec, tier, want):
                 if not both:
                     rec.count('l2_keyword_pairs_where_a_side_raises')
                 _viol(rec, 'L2 obsolete keyword vs new keyword', f'keyword:{entry["label"]}({old}=)', label, bad,
-                      dict(part='L2', group='KW', label=label))
+                      dict(part='L2', group='KW', label=label, alph=_ALPH))
     rec.count('layer2_uncovered_obsolete_keywords', len(uncovered))
     rec.sample(dict(part='L2', group='KW', uncovered_keywords=uncovered))
 
 
 def l2_replay(case, rec):
-    task = dict(part='L2', group=case['group'], shard=case.get('shard', 0), of=case.get('of', 1))
+    task = dict(part='L2', group=case['group'], shard=case.get('shard', 0), of=case.get('of', 1), alph=case.get('alph', _SEED % 4))
     l2_run(task, rec, only=case['label'])
 
 
@@ -1964,6 +1981,9 @@ def run_task(task):
                 for shape in shapes(tier):
                     for pool in POOLS:
                         r = l1_pair_probe(pair, variant, shape, pool)
+                        if r == 'n/a':
+                            rec.count('l1_own_variant_not_applicable_replacement_is_a_module_function')
+                            continue
                         if r is None:
                             rec.count('l1_replacement_not_swappable')
                             continue
@@ -2037,7 +2057,7 @@ def replay(case):
     elif part == 'L1':
         pair = tuple(case['pair'])
         r = l1_pair_probe(pair, case['variant'], shp(case['shape']), case['pool'])
-        if r:
+        if r and r != 'n/a':
             kk = _l1_kindkey(pair, case['variant'], r[1])
             _viol(rec, f'L1 {case["variant"]}', kk, f'{pair[1]}.{pair[2]} (declared in {pair[5]}) -> {pair[3]}', r[0], case)
     elif part in ('TS', 'DPS'):
